@@ -4,16 +4,20 @@ import CashewsVerif.Model.Serial
 Line protocol shared by the C09 and C10 drivers (stateless: one request line, one answer line).
 
 Every line is `<op> k=v k=v …` with the fields
-  sec=<hex|->            the reader's / writer's secret (`-` = NullSigner)
+  sec=<-|hex|s:hex|b:hex|o>   the configured secret as it reaches `HashSigner.__init__`: `-` = none (NullSigner);
+                         `s:<hex>` (or bare `<hex>`) = a `str`, by its UTF-8 bytes; `b:<hex>` = `bytes`; `o` = neither (a number the
+                         settings-url parser made).  The model applies `Serial.toBytes` (`_to_bytes`) to it
   dig=<md5|sha1|…>       the configured digest
   pk=<null|real>         NonPickler or a real pickler (whose verdicts are supplied on the line)
-  reg=<e,e,…|->          the `register_type` calls made so far, OLDEST FIRST, each `e` = `<taghex>` or `<taghex>/<codec>`:
-                         the registry consulted by this call is `Registry.registerAll Registry.empty` of them (a later
-                         entry for the same tag replaces the earlier one).  Codec: tag `bytes` = identity codec; else
+  reg=<e,e,…|->          the `register_type` calls made so far, OLDEST FIRST, each `e` = `<class>` or `<class>/<codec>`,
+                         `<class>` = `<namehex>` (module-level class: `__qualname__ == __name__`) or `<namehex>.<qualnamehex>`:
+                         the CLASS that was handed to `register_type`.  The registry consulted by this call is
+                         `Registry.registerClasses Registry.empty` of them: the model derives the registry key with `Klass.tag`,
+                         the same function it applies to the class of a value.  Codec: class `bytes` = identity codec; else
                          `/0` (or nothing) = box codec, `/1` = plain codec, `/2` = tolerant codec (below)
-  key=<hex>              key.encode()
+  key=<hex|!>            key.encode(); `!` = the key text cannot be encoded (UnicodeEncodeError: lone surrogate)
   mac=<label>:<msghex>:<machex>|-     the one MAC the harness computed (with the real hmac) for the model's query
-  v= / w= / dumps=       values:  i:<int> | b:<hex> | o:<id>:<taghex> | x:<taghex>:<payloadhex>
+  v= / w= / dumps=       values:  i:<int> | b:<hex> | o:<id>:<class> | x:<class>:<payloadhex>   (`<class>` of `type(value)`)
   loads=<ok:<val>|unp|attr|other|->   what the real `pickler.loads` did on the payload the model named
   same=<0|1>             `value is default`
 
@@ -26,8 +30,8 @@ open CashewsVerif.Serial
 /-- objects other than int / bytes: an opaque Python object (identified by the harness' canonical-form
 table) or an instance of a registered harness class `tag` holding `payload` -/
 inductive Obj where
-  | opaque (id : Nat) (tag : Bytes)
-  | boxed (tag payload : Bytes)
+  | opaque (id : Nat) (klass : Klass)
+  | boxed (klass : Klass) (payload : Bytes)
   deriving DecidableEq, Repr
 
 def hexDigit? (c : Char) : Option Nat :=
@@ -51,19 +55,29 @@ def hexOf (n : Nat) : Char := if n < 10 then Char.ofNat (48 + n) else Char.ofNat
 def bytesToHex (b : Bytes) : String :=
   String.ofList (b.flatMap fun x => [hexOf (x.toNat / 16), hexOf (x.toNat % 16)])
 
+/-- `<namehex>` (qualname = name) or `<namehex>.<qualnamehex>` -/
+def parseKlass? (s : String) : Option Klass :=
+  match s.splitOn "." with
+  | [n] => do let b ← hexToBytes? n; pure ⟨b, b⟩
+  | [n, q] => do pure ⟨← hexToBytes? n, ← hexToBytes? q⟩
+  | _ => none
+
+def showKlass (k : Klass) : String :=
+  if k.qual = k.name then bytesToHex k.name else s!"{bytesToHex k.name}.{bytesToHex k.qual}"
+
 def parseVal? (s : String) : Option (Serial.Val Obj) :=
   match s.splitOn ":" with
   | ["i", n] => n.toInt?.map .int
   | ["b", h] => (hexToBytes? h).map .bytes
-  | ["o", id, tag] => do pure (.obj (.opaque (← id.toNat?) (← hexToBytes? tag)))
-  | ["x", tag, p] => do pure (.obj (.boxed (← hexToBytes? tag) (← hexToBytes? p)))
+  | ["o", id, k] => do pure (.obj (.opaque (← id.toNat?) (← parseKlass? k)))
+  | ["x", k, p] => do pure (.obj (.boxed (← parseKlass? k) (← hexToBytes? p)))
   | _ => none
 
 def showVal : Serial.Val Obj → String
   | .int i => s!"i:{i}"
   | .bytes b => s!"b:{bytesToHex b}"
-  | .obj (.opaque id tag) => s!"o:{id}:{bytesToHex tag}"
-  | .obj (.boxed tag p) => s!"x:{bytesToHex tag}:{bytesToHex p}"
+  | .obj (.opaque id k) => s!"o:{id}:{showKlass k}"
+  | .obj (.boxed k p) => s!"x:{showKlass k}:{bytesToHex p}"
 
 def strBytes (s : String) : Bytes := s.toUTF8.toList
 
@@ -77,8 +91,9 @@ def bytesCodec : Codec Obj where
   dec := fun b => some (.bytes b)
 
 /-- the harness' registered classes: `enc(v) = b"+" + v.payload[::-1]`; the decoder raises `DecodeError`
-unless the payload starts with `+`, else returns `cls(payload[1:][::-1])` -/
-def boxCodec (tag : Bytes) : Codec Obj where
+unless the payload starts with `+`, else returns `cls(payload[1:][::-1])` where `cls` is the class that was handed to
+`register_type` together with this pair (`tag` below) — not necessarily the class of the value that was encoded -/
+def boxCodec (tag : Klass) : Codec Obj where
   enc := fun v => match v with
     | .obj (.boxed _ p) => 0x2b :: p.reverse
     | _ => []
@@ -88,7 +103,7 @@ def boxCodec (tag : Bytes) : Codec Obj where
 
 /-- second harness codec: `enc(v) = b"=" + v.payload`; the decoder raises `DecodeError` unless the payload starts
 with `=` (so it rejects what `boxCodec` wrote) -/
-def plainCodec (tag : Bytes) : Codec Obj where
+def plainCodec (tag : Klass) : Codec Obj where
   enc := fun v => match v with
     | .obj (.boxed _ p) => 0x3d :: p
     | _ => []
@@ -97,7 +112,7 @@ def plainCodec (tag : Bytes) : Codec Obj where
     | _ => none
 
 /-- third harness codec: writes like `plainCodec`, reads both formats -/
-def tolerantCodec (tag : Bytes) : Codec Obj where
+def tolerantCodec (tag : Klass) : Codec Obj where
   enc := fun v => match v with
     | .obj (.boxed _ p) => 0x3d :: p
     | _ => []
@@ -106,15 +121,15 @@ def tolerantCodec (tag : Bytes) : Codec Obj where
     | 0x2b :: r => some (.obj (.boxed tag r.reverse))
     | _ => none
 
-/-- one entry of the `reg=` field -/
-def parseRegEntry? (e : String) : Option (Bytes × Codec Obj) :=
+/-- one entry of the `reg=` field: the class handed to `register_type` and the pair -/
+def parseRegEntry? (e : String) : Option (Klass × Codec Obj) :=
   match e.splitOn "/" with
   | [h] => do
-    let t ← hexToBytes? h
-    pure (t, if t = tagBytes then bytesCodec else boxCodec t)
+    let t ← parseKlass? h
+    pure (t, if t = Klass.bytes then bytesCodec else boxCodec t)
   | [h, k] => do
-    let t ← hexToBytes? h
-    if t = tagBytes then none
+    let t ← parseKlass? h
+    if t = Klass.bytes then none
     else if k = "0" then pure (t, boxCodec t)
     else if k = "1" then pure (t, plainCodec t)
     else if k = "2" then pure (t, tolerantCodec t)
@@ -162,18 +177,30 @@ structure Req where
   /-- the same configuration whose MAC answers *every* query with the supplied value: if the two
   configurations disagree, the model asked for a MAC the driver did not announce -/
   cfgAny : Cfg Obj
-  key : Bytes
+  /-- `key.encode()`; `none` = it raises -/
+  key : Option Bytes
+  /-- `_to_bytes(secret)` is bytes -/
+  secretOk : Bool
   f : Fields
 
 def mkReq (f : Fields) : Option Req := do
   let sec ← f.get? "sec"
   let dig ← parseLabel (strBytes (← f.get? "dig"))
-  let signer : Option Signer ← if sec = "-" then pure none else do
-    pure (some { secret := ← hexToBytes? sec, digest := dig })
+  let secArg : Option SecretArg ←
+    if sec = "-" then pure none
+    else if sec = "o" then pure (some .other)
+    else if sec.startsWith "s:" then do pure (some (.str (← hexToBytes? (sec.drop 2).toString)))
+    else if sec.startsWith "b:" then do pure (some (.bytes (← hexToBytes? (sec.drop 2).toString)))
+    else do pure (some (.str (← hexToBytes? sec)))
+  let signer : Option Signer := secArg.map fun a => { secret := (toBytes a).getD [], digest := dig }
+  let secretOk : Bool := match secArg with
+    | some a => (toBytes a).isSome
+    | none => true
   let pk ← f.get? "pk"
   let regS ← f.get? "reg"
   let regs ← if regS = "-" then pure [] else Proto.allSome ((regS.splitOn ",").map parseRegEntry?)
-  let key ← hexToBytes? (← f.get? "key")
+  let keyS ← f.get? "key"
+  let key : Option Bytes ← if keyS = "!" then pure none else (hexToBytes? keyS).map some
   let macE ← parseMac? ((f.get? "mac").getD "-")
   let dumps ← match f.get? "dumps" with
     | none => pure none
@@ -184,10 +211,10 @@ def mkReq (f : Fields) : Option Req := do
     if pk = "null" then pure Pickler.null
     else if pk = "real" then pure { dumps := fun v => dumps.getD v, loads := fun _ => loads }
     else none
-  let registry : Registry Obj := Registry.registerAll Registry.empty regs
-  let typeName : Obj → Bytes := fun o => match o with
-    | .opaque _ t => t
-    | .boxed t _ => t
+  let registry : Registry Obj := Registry.registerClasses Registry.empty regs
+  let classOf : Obj → Klass := fun o => match o with
+    | .opaque _ k => k
+    | .boxed k _ => k
   let mac : Digest → Bytes → Bytes → Bytes := fun d _ m =>
     match macE with
     | some e => if e.d = d ∧ e.msg = m then e.mac else noMac
@@ -196,8 +223,8 @@ def mkReq (f : Fields) : Option Req := do
     match macE with
     | some e => e.mac
     | none => noMac
-  let cfg : Cfg Obj := { mac := mac, signer := signer, pickler := pickler, typeName := typeName }
-  pure { cfg := cfg, reg := registry, cfgAny := { cfg with mac := macAny }, key := key, f := f }
+  let cfg : Cfg Obj := { mac := mac, signer := signer, pickler := pickler, classOf := classOf }
+  pure { cfg := cfg, reg := registry, cfgAny := { cfg with mac := macAny }, key := key, secretOk := secretOk, f := f }
 
 def showQuery : Option (Digest × Bytes) → String
   | none => "q=-"
@@ -245,6 +272,21 @@ def showRes : Res Obj → String
   | .unsecure => "unsecure"
   | .raised => "raised"
 
+def showMacErr : MacErr → String
+  | .key => "macerr:key"
+  | .secret => "macerr:secret"
+
+def showResK : ResK Obj → String
+  | .res r => showRes r
+  | .macError e => showMacErr e
+
+/-- the MAC cannot be computed for this request: why -/
+def macErr (r : Option Bytes) (secretOk : Bool) : Option MacErr :=
+  match r, secretOk with
+  | none, _ => some .key
+  | some _, false => some .secret
+  | some _, true => none
+
 def parseSame? (f : Fields) : Option Bool :=
   match f.get? "same" with
   | some "1" => some true
@@ -256,32 +298,40 @@ def answer (op : String) (r : Req) : Option String := do
   match op with
   | "enc1" =>
     let v ← parseVal? (← r.f.get? "v")
-    pure (showQuery (encQuery r.cfg r.reg r.key v))
+    pure (match r.key, r.secretOk with
+      | some kb, true => showQuery (encQuery r.cfg r.reg kb v)
+      | _, _ => showQuery none)
   | "enc2" =>
     let v ← parseVal? (← r.f.get? "v")
-    let a := encode r.cfg r.reg r.key v
-    let b := encode r.cfgAny r.reg r.key v
+    let a := encodeK r.cfg r.reg r.key r.secretOk v
+    let b := encodeK r.cfgAny r.reg r.key r.secretOk v
     let miss := if a = b then 0 else 1
     pure (match a with
       | none => s!"stored=err miss={miss}"
       | some w => s!"stored={showVal w} miss={miss}")
   | "dec1" =>
     let w ← parseVal? (← r.f.get? "w")
-    pure (showQuery (decQuery r.cfg r.key w (← parseSame? r.f)))
+    let same ← parseSame? r.f
+    pure (match r.key, r.secretOk with
+      | some kb, true => showQuery (decQuery r.cfg kb w same)
+      | _, _ => showQuery none)
   | "dec2" =>
     let w ← parseVal? (← r.f.get? "w")
     let same ← parseSame? r.f
-    let a := preLoads r.cfg r.reg r.key w same
-    let b := preLoads r.cfgAny r.reg r.key w same
-    let miss := if a = b then 0 else 1
-    pure s!"pre={showPre a} miss={miss}"
+    match (if decodeUsesMac r.cfg w same then macErr r.key r.secretOk else none) with
+    | some e => pure s!"pre={showMacErr e} miss=0"
+    | none =>
+      let a := preLoads r.cfg r.reg (r.key.getD []) w same
+      let b := preLoads r.cfgAny r.reg (r.key.getD []) w same
+      let miss := if a = b then 0 else 1
+      pure s!"pre={showPre a} miss={miss}"
   | "dec3" =>
     let w ← parseVal? (← r.f.get? "w")
     let same ← parseSame? r.f
-    let a := decode r.cfg r.reg r.key w same
-    let b := decode r.cfgAny r.reg r.key w same
+    let a := decodeK r.cfg r.reg r.key r.secretOk w same
+    let b := decodeK r.cfgAny r.reg r.key r.secretOk w same
     let miss := if a = b then 0 else 1
-    pure s!"res={showRes a} miss={miss}"
+    pure s!"res={showResK a} miss={miss}"
   | _ => none
 
 def step (_ : Unit) (line : String) : Unit × String :=
